@@ -18,6 +18,8 @@ Definition run_c17 (l : list Z) : list Z :=
   | [2; r; g; b; a] => enc_pxs [color_u8_premultiply (mkpx r g b a)]
   | 3 :: w :: h :: rest => enc_pxs (map premultiply (encode_pixels (dec_pxs rest)))
   | 4 :: ct :: w :: h :: rest => enc_pxs (decode_pixels ct rest)
+  (* fn 10: the same samples in a hand-built file, Adam7-interlaced or not: the pixels do not depend on the interlacing *)
+  | 10 :: ct :: w :: h :: il :: rest => enc_pxs (decode_pixels ct rest)
   | 7 :: ct :: w :: h :: rest => enc_pxs (decode_pixels ct (map (fun v => v / 256) rest))
   | 6 :: w :: h :: rest => rest
   | 5 :: _ => [-9]
